@@ -295,6 +295,11 @@ def gen(rng, n_cases, exhaustive_upto=0):
                 "order": rng.randint(1, 10 ** 6) if rng.random() < 0.7 else None,
                 "flip": sorted(rng.sample(range(1, n), rng.randint(1, n - 1))) if rng.random() < 0.7 else [],
                 "reroot": rng.randrange(n) if rng.random() < 0.5 else None}
+        one.count = getattr(one, "count", 0) + 1
+        if n > 1 and one.count % 4 == 1:
+            case["r"][rng.randrange(1, n)] = 0.0          # a line without resistance (series reactor): boundary value of the constructor
+        if n > 1 and one.count % 8 == 3:
+            case["x"][rng.randrange(1, n)] = 0.0          # ... or without reactance
         return case
     from .c07 import all_trees
     for nb in range(2, exhaustive_upto + 1):
@@ -318,7 +323,7 @@ def gen(rng, n_cases, exhaustive_upto=0):
 def run(res):
     rng = random.Random(res.seed * 10061 + 97)
     nc, ex = (250, 4) if res.tier == "quick" else (6000, 6)
-    res.rule = (f"every rooted tree shape with <= {ex} buses (twice, random data) plus random trees / stars / chains of 2..12 buses; line r, x in [0.001, 0.4] pu, "
+    res.rule = (f"every rooted tree shape with <= {ex} buses (twice, random data) plus random trees / stars / chains of 2..12 buses; line r, x in [0.001, 0.4] pu (every fourth case has a line with r = 0, every eighth one with x = 0), "
                 "loads up to 0.12 pu per bus, production up to twice the load scale (net exporters), random reference bus; 70% also rebuilt in a shuffled creation / insertion order, "
                 "70% with a random subset of lines stored in the opposite direction, 50% solved first from another reference bus. "
                 "non-trivial = distinct (buses, max. number of children, reference = first bus, production present, lowest voltage to 0.1, flips, reroot) among cases inside the regime V >= 0.85 pu")
